@@ -179,3 +179,80 @@ Proof.
           end; simpl; rewrite ?HT1, ?E5);
     unfold Rres, R; simpl; repeat split; try reflexivity; try assumption.
 Qed.
+
+Lemma ringof_push : forall r a a', ringof a = ringof a' -> ringof (ring_push r a) = ringof (ring_push r a').
+Proof. intros r a a' H; destruct a, a'; unfold ringof in *; simpl in *; inversion H; subst; reflexivity. Qed.
+
+Lemma R_push : forall r s s', R s s' -> R (ring_push r s) (ring_push r s').
+Proof. intros r s s' H; destruct s, s'; exact H. Qed.
+
+Definition same_out (x y : lres) : Prop :=
+  l_tokens (lres_state x) = l_tokens (lres_state y) /\ lres_ok x = lres_ok y.
+
+Lemma Rres_state : forall x y, Rres x y -> R (lres_state x) (lres_state y) /\ lres_ok x = lres_ok y.
+Proof. intros [a|a] [b|b] H; simpl in *; try contradiction; split; [exact H|reflexivity|exact H|reflexivity]. Qed.
+
+Lemma lex_all_R : forall t s s', R s s' -> ring_wf s -> ring_wf s' ->
+  (forall r, T (ring_push r s) (ring_push r s')) -> same_out (lex_all s t) (lex_all s' t).
+Proof.
+  induction t as [|r t IH]; intros s s' HR W W' HT; simpl.
+  - split; [apply HR|reflexivity].
+  - pose proof (lex_body_R _ _ r (R_push r s s' HR) (HT r)) as HB. rewrite <- !lex_rune_body in HB.
+    pose proof (lex_rune_ring s r) as G. pose proof (lex_rune_ring s' r) as G'.
+    destruct (lex_rune s r) as [a|a]; destruct (lex_rune s' r) as [b|b]; simpl in *; try contradiction.
+    + apply IH; [exact HB| | |].
+      * eapply ring_wf_ringof; [symmetry; exact G|apply ring_push_wf; exact W].
+      * eapply ring_wf_ringof; [symmetry; exact G'|apply ring_push_wf; exact W'].
+      * intros r2. unfold T.
+        rewrite (twoback_ringof _ _ (ringof_push r2 _ _ G)), (twoback_ringof _ _ (ringof_push r2 _ _ G')).
+        rewrite !twoback_push_push by assumption. reflexivity.
+    + split; [apply HB|reflexivity].
+Qed.
+
+(* a lexer state right after a reader prefix: normal mode, nothing pending, the prefix token queued,
+   the previous rune in the same class as the start of a text *)
+Definition after_prefix (s : lstate) (tok : token) : Prop :=
+  R (set_tokens [] s) init_lstate /\ l_tokens s = [tok] /\ ring_wf s /\
+  forall r, T (ring_push r (set_tokens [] s)) (ring_push r init_lstate).
+
+Lemma ring_wf_init : ring_wf init_lstate.
+Proof. split; [vm_compute; lia|reflexivity]. Qed.
+
+Lemma after_prefix_tokens : forall s tok t, after_prefix s tok ->
+  l_tokens (lres_state (lex_all s t)) = tok :: l_tokens (lres_state (lex_all init_lstate t)) /\
+  lres_ok (lex_all s t) = lres_ok (lex_all init_lstate t).
+Proof.
+  intros s tok t (HR & Htk & W & HT).
+  rewrite (lex_all_emptied s t). rewrite Htk.
+  destruct (lex_all_R t (set_tokens [] s) init_lstate HR) as [E1 E2];
+    [destruct s; exact W|apply ring_wf_init|exact HT|].
+  destruct (lex_all (set_tokens [] s) t) as [a|a]; simpl in *; rewrite <- E2; (split; [|reflexivity]);
+    destruct a; simpl in *; rewrite E1; reflexivity.
+Qed.
+
+Local Transparent can_start_signed_after.
+
+Lemma after_percent : after_prefix (lres_state (lex_rune init_lstate 37)) (mkTok TQuote []).
+Proof. repeat split; try (vm_compute; lia); intros r; vm_compute; reflexivity. Qed.
+
+Lemma after_caret : after_prefix (lres_state (lex_rune init_lstate 94)) (mkTok TCaret []).
+Proof. repeat split; try (vm_compute; lia); intros r; vm_compute; reflexivity. Qed.
+
+Lemma after_tilde_at : after_prefix (lres_state (lex_all init_lstate [126; 64])) (mkTok TTildeAt []).
+Proof. repeat split; try (vm_compute; lia); intros r; vm_compute; reflexivity. Qed.
+
+(* ~ : the token is emitted when the next rune arrives; as if it had been emitted at once *)
+Definition tilde_state : lstate :=
+  set_state LNormal (append_token (mkTok TTilde []) (lres_state (lex_rune init_lstate 126))).
+
+Lemma after_tilde : after_prefix tilde_state (mkTok TTilde []).
+Proof. repeat split; try (vm_compute; lia); intros r; vm_compute; reflexivity. Qed.
+
+Lemma tilde_step : forall r, (r =? 64) = false ->
+  lex_rune (lres_state (lex_rune init_lstate 126)) r = lex_rune tilde_state r.
+Proof.
+  intros r Hr. unfold lex_rune at 1 3. cbn [lres_state].
+  change (l_state (ring_push r (lres_state (lex_rune init_lstate 126)))) with LUnquote.
+  change (l_state (ring_push r tilde_state)) with LNormal.
+  cbv iota. rewrite Hr. reflexivity.
+Qed.
